@@ -10,7 +10,7 @@ from geometer import Line, Plane, Point, Quadric, Transformation
 from .. import common as C
 from .. import ops as O
 from .. import zoo as Z
-from ..runner import Checker, Fail, Law, Skip, call, exc_fail
+from ..runner import Checker, Fail, HarnessError, Law, Skip, call, exc_fail
 
 RULE = (
     "An operation of the registry (vp/ops.py, ~125 operation/argument patterns in 2D and 3D), valid arguments from a pool built "
@@ -372,6 +372,69 @@ def run_degq(c):
     return ck.result()
 
 
+# ------------------------------------------------------------------------------------------- small integer types
+@st.composite
+def narrow_case(draw, tier="quick"):
+    d = draw(st.sampled_from([2, 3]))
+    return {"d": d, "dt": draw(st.sampled_from(["int16", "int32", "uint16", "uint8"])), "v": [draw(C.hpoint(d, 9)) for _ in range(3)],
+            "k": draw(st.sampled_from([100, -100, 50, 7, 1000, -3000, 1024, -20000])), "pos": draw(st.integers(0, 2)), "dual": draw(st.booleans())}
+
+
+def run_narrow(c):
+    """points / hyperplanes with integer coordinates stored in a small integer type; one argument is replaced by the
+    representative k * x with the largest listed |k| that still fits that type: join / meet / constructors return the same object"""
+    d, dt = c["d"], c["dt"]
+    if dt not in ("int16", "int32", "uint16", "uint8") or d not in (2, 3) or len(c["v"]) != 3 or not 0 <= c["pos"] <= 2:
+        raise Skip("malformed")
+    vs = [np.array([int(x) for x in v], dtype=np.int64) for v in c["v"]]
+    if any(len(v) != d + 1 or not np.any(v) for v in vs):
+        raise Skip("malformed")
+    if dt.startswith("u"):
+        vs = [np.abs(v) for v in vs]
+    info = np.iinfo(dt)
+    k = int(c["k"])
+    if dt.startswith("u"):
+        k = abs(k)
+    pos = c["pos"]
+    while abs(k) > 1 and (np.max(vs[pos] * k) > info.max or np.min(vs[pos] * k) < info.min):
+        k = int(k / 2) if abs(k) > 3 else (1 if k > 0 else -1)
+    if k == 1:
+        raise Skip("no room for another representative")
+    cls = (G.Line if d == 2 else G.Plane) if c["dual"] else G.Point
+    objs = [cls(v.astype(dt)) for v in vs]
+    objs2 = list(objs)
+    objs2[pos] = cls((vs[pos] * k).astype(dt))
+    if any(o.array.dtype != np.dtype(dt) for o in objs + objs2):
+        raise HarnessError("dtype not kept")
+    fn = G.meet if c["dual"] else G.join
+    calls = [("two", lambda o: fn(o[0], o[1])), ("swapped", lambda o: fn(o[1], o[0])), ("==", lambda o: o[pos] == objs[pos])]
+    if d == 3:
+        calls.append(("three", lambda o: fn(o[0], o[1], o[2])))
+        calls.append(("two-then-one", lambda o: fn(fn(o[0], o[1]), o[2])))
+    if not c["dual"]:
+        calls.append(("constructor", lambda o: (G.Line(o[0], o[1]) if d == 2 else G.Plane(o[0], o[1], o[2]))))
+        calls.append(("contains", lambda o: bool(np.all((G.Line(o[0], o[1]) if d == 2 else G.Plane(o[0], o[1], o[2])).contains(o[pos])))))
+    ck = Checker()
+    opname = "meet" if c["dual"] else "join"
+    for tag, f in calls:
+        if pos == 2 and tag in ("two", "swapped"):
+            continue
+        site = f"narrow:{opname}:{tag}:d{d}"
+        r1, e = call(site, f, objs)
+        if e:
+            continue  # dependent arguments: subject of C02
+        r2, e = call(site + ":rescaled", f, objs2)
+        if e:
+            ck.add(e)
+            continue
+        if isinstance(r1, (bool, np.bool_)):
+            ck.check(bool(r1) == bool(r2), site, (bool(r1), bool(r2), k, dt))
+        else:
+            a1, a2 = np.asarray(r1.array, dtype=float), np.asarray(r2.array, dtype=float)
+            ck.check(C.peq_all(a1.ravel(), a2.ravel(), 1, 1e-9), site, (a1.tolist(), a2.tolist(), k, dt))
+    return ck.result()
+
+
 LAWS = [
     Law("rescale_argument", lambda tier: case(tier), run, nontrivial, labels, {"quick": 6000, "thorough": 150000},
         "op(args) vs op(args with one argument's homogeneous representative rescaled)", shard=400, mandatory=("negative-factor", "complex-factor")),
@@ -384,6 +447,9 @@ LAWS = [
         lambda c: [f"n{len(c['g'])}"] + (["zero-coordinates"] if 0 in c["g"] or 0 in c["h"] else []) + (["negative-factor"] if any(s[0] < 0 for s in c["factors"]) else []),
         {"quick": 600, "thorough": 10000}, "line / plane pairs with small integer coordinates given by k*M for several k: components and intersect(line) independent of k", shard=300,
         mandatory=("zero-coordinates", "negative-factor")),
+    Law("narrow_integer_representatives", lambda tier: narrow_case(tier), run_narrow, lambda c: True, lambda c: [c["dt"], f"d{c['d']}", "meet" if c["dual"] else "join"],
+        {"quick": 800, "thorough": 15000}, "integer coordinates stored as int16 / int32 / uint16 / uint8, one argument replaced by the largest listed multiple that fits the type", shard=300,
+        mandatory=("int16", "int32", "uint16")),
     Law("equality", lambda tier: eq_case(tier), run_eq, lambda c: True, lambda c: [f"{c['kind']}{c['d']}"], {"quick": 1500, "thorough": 30000},
         "== holds for every non-zero multiple, is reflexive and symmetric, and is false for objects that are clearly not multiples", shard=400),
 ]
